@@ -6,6 +6,7 @@ import (
 	"maps"
 	"net/http"
 	"os"
+	"path/filepath"
 	"strconv"
 	"strings"
 
@@ -565,20 +566,53 @@ func (r *Runner) Format(rslv resolver.Resolver) error {
 	}
 
 	formatted := formatter.New(r.config.Format).Format(vcl)
-	var w io.Writer
-	if r.config.Format.Overwrite {
-		writeln(cyan, "Formatted %s.", main.Name)
-		fp, err := os.OpenFile(main.Name, os.O_TRUNC|os.O_WRONLY, 0o644)
-		if err != nil {
-			return errors.WithStack(err)
-		}
-		defer fp.Close()
-		w = fp
-	} else {
-		w = os.Stdout
+	// The formatter handles declarations only, e.g. not a snippet made of statements
+	if formatted == nil {
+		return fmt.Errorf("%s could not be formatted: the formatter supports VCL declarations only", main.Name)
 	}
-	if _, err := io.Copy(w, formatted); err != nil {
+	if !r.config.Format.Overwrite {
+		if _, err := io.Copy(os.Stdout, formatted); err != nil {
+			return err
+		}
+		return nil
+	}
+
+	if err := overwriteFile(main.Name, formatted); err != nil {
+		return errors.WithStack(err)
+	}
+	writeln(cyan, "Formatted %s.", main.Name)
+	return nil
+}
+
+// overwriteFile replaces the file with the content of r so that the file holds either its old
+// or its new content whatever happens: the new content goes to a temporary file next to it,
+// which is renamed over the target only once it is completely written.
+func overwriteFile(name string, r io.Reader) (err error) {
+	mode := os.FileMode(0o644)
+	if st, serr := os.Stat(name); serr == nil {
+		mode = st.Mode().Perm()
+	}
+	tmp, err := os.CreateTemp(filepath.Dir(name), "."+filepath.Base(name)+".falco-fmt-*")
+	if err != nil {
 		return err
 	}
-	return nil
+	defer func() {
+		if err != nil {
+			tmp.Close()           // nolint:errcheck
+			os.Remove(tmp.Name()) // nolint:errcheck
+		}
+	}()
+	if _, err = io.Copy(tmp, r); err != nil {
+		return err
+	}
+	if err = tmp.Chmod(mode); err != nil {
+		return err
+	}
+	if err = tmp.Sync(); err != nil {
+		return err
+	}
+	if err = tmp.Close(); err != nil {
+		return err
+	}
+	return os.Rename(tmp.Name(), name)
 }
